@@ -140,12 +140,12 @@ func (i *inspect) addIndexes(t *schema.Table, rows *sql.Rows) error {
 			},
 		}
 		if partial {
-			i := strings.Index(stmt.String, "WHERE")
-			if i == -1 {
+			loc := reIdxWhere.FindStringIndex(stmt.String)
+			if loc == nil {
 				return fmt.Errorf("missing partial WHERE clause in: %s", stmt.String)
 			}
 			idx.Attrs = append(idx.Attrs, &IndexPredicate{
-				P: strings.TrimSpace(stmt.String[i+5:]),
+				P: strings.TrimSpace(stmt.String[loc[1]:]),
 			})
 		}
 		t.Indexes = append(t.Indexes, idx)
@@ -157,6 +157,9 @@ var (
 	// A regexp to extract index parts.
 	reIdxParts = regexp.MustCompile("(?i)ON\\s+[\"`]*(?:\\w+)[\"`]*\\s*\\((.+?)\\)(\\s*WHERE\\s+.+)?$")
 	reIdxDesc  = regexp.MustCompile("(?i)\\s+DESC\\s*$")
+	// A regexp to locate the WHERE keyword of a partial index; SQLite
+	// stores the statement as written, and keywords are case-insensitive.
+	reIdxWhere = regexp.MustCompile("(?i)\\bWHERE\\b")
 )
 
 func (i *inspect) indexInfo(ctx context.Context, t *schema.Table, idx *schema.Index) error {
